@@ -721,6 +721,9 @@ func TestVF_C10_Witness(t *testing.T) {
 		what += fmt.Sprintf("rejected cleanly (%v)", res.reqErr)
 	}
 	st.KnownResult(c10FindingTagSize, msg != "", what)
+	if msg != "" && !vfkit.Known(c10FindingTagSize) {
+		t.Fatalf("regression of a repaired finding (%s is not listed as known): %s", c10FindingTagSize, what)
+	}
 	st.NonTrivial("witness", msg != "")
 	st.Sample(map[string]any{"payload_hex": fmt.Sprintf("%x", b), "result": what})
 	t.Log(what)
